@@ -194,6 +194,9 @@ def run(ck, P):
     ck.analysed(st_)
     ws = list(P.writes_to_field("m_src_tmr_t", "ns"))
     tick_ws = [w for w in ws if "tick" in S(w.lhs)]
+    # (the whole timer description stored at once — struct assignment or memcpy — stores the period too)
+    tick_ws += [e for e in P.all_events() if (e.kind == "assign" and e.lhs is not None and S(e.lhs).endswith("tick.tmr")) or
+                (e.kind == "call" and e.callee == "memcpy" and e.args and S(e.args[0]).endswith("tick.tmr"))]
     okw = bool(tick_ws) and all(w.fn is st_ for w in tick_ws)
     bad = None
     n = 0
